@@ -153,6 +153,20 @@ def _spectral_model():
     return {"name": "spectral_model", "model": model, "parameters": params}
 
 
+def _shared_labels():
+    """Labels need to be unique per item kind only: one label used for a megacomplex, a k-matrix, an initial concentration, an irf
+    and a dataset.  Every reference must resolve in the registry of ITS kind."""
+    model = {
+        "megacomplex": {"main": {"type": "decay", "k_matrix": ["main"]}, "aux": {"type": "baseline", "dimension": "time"}},
+        "k_matrix": {"main": {"matrix": {"(s2, s1)": "kinetic.k21", "(s2, s2)": "kinetic.k22"}}},
+        "initial_concentration": {"main": {"compartments": ["s1", "s2"], "parameters": ["inputs.j1", "inputs.j0"]}},
+        "irf": {"main": {"type": "gaussian", "center": "irf.c1", "width": "irf.w1"}},
+        "dataset": {"main": {"megacomplex": ["main", "aux"], "initial_concentration": "main", "irf": "main"}},
+    }
+    params = {"kinetic.k21": 0.4, "kinetic.k22": 0.1, "inputs.j1": 1.0, "inputs.j0": 0.0, "irf.c1": 0.1, "irf.w1": 0.2}
+    return {"name": "shared_labels", "model": model, "parameters": params}
+
+
 def _generator_models():
     """The four model generators shipped with pyglotaran (glotaran.project.generators)."""
     from glotaran.project.generators.generator import generators
@@ -175,7 +189,7 @@ def _generator_models():
 
 
 def base_models(tier: str = "quick") -> list[dict]:
-    res = [_decay_full(), _spectral_full_model(), _oscillation(), _pfid(), _guide(), _spectral_model()] + _generator_models()
+    res = [_decay_full(), _spectral_full_model(), _oscillation(), _pfid(), _guide(), _spectral_model(), _shared_labels()] + _generator_models()
     for b in res:
         b["axes"] = {"time": TIME, "spectral": SPECTRAL}
     return res
